@@ -1,23 +1,17 @@
 (* C16 - at most one run of a DAG file is active at a time.
    This file holds nothing but the property theorems (closed by `exact`) and Print Assumptions.
    Model: Sock/Model.v - every start / retry of the file is a process running the action list
-   [BuildGraph; EvalPre; Probe; RemoveOld; OpenHist; WriteS0; UnlinkSock; Bind; Steps; Handlers; WriteFinal; ShutUnlink;
-    ShutClose; CloseHist; LateUnlink] (agent.go:98-210, sock/server.go:48-62, net.UnixListener.close) over a shared
-   world; any number of processes interleave at action granularity.  Agent/Run.v is the single-agent skeleton.
-   Tie to the code: tools/props/C16.py (two/three real `blackdagger` processes under strace delay injection, and
-   in-process agents, replayed against `run`).
-
-   The property's last clause is FALSE of the code and of the faithful model (F16a):
-
-     C16_mutual_exclusion (not a theorem):
-       forall sched w, run sched (init Absent) = Some w ->
-         (forall p q, p <> q -> ~ (active (procs w p) = true /\ active (procs w q) = true)) /\
-         (forall p, mem p (hist w) = true -> refused (procs w p) = false /\ bindfail (procs w p) = false ... )
-
-   It is refuted below by explicit schedules (C16_mutual_exclusion_refuted, C16_third_start_refuted,
-   C16_loser_records_refuted, C16_late_unlink_refuted) and proved under the decidable premise "no probe is taken while
-   another process is between its own probe and its bind, or between its shutdown unlink and its exit"
-   (C16_mutual_exclusion_partial, for any number of processes). *)
+   [BuildGraph; EvalPre; Lock; Probe; RemoveOld; OpenHist; WriteS0; UnlinkSock; Bind; Unlock; Steps; Handlers; WriteFinal;
+    ShutUnlink; ShutClose; CloseHist] (agent.go Run / lockSocket, sock/server.go Serve, net.UnixListener.close) over a
+   shared world; any number of processes interleave at action granularity.  This is the protocol AFTER the repair
+   a924e5c (the probe..bind section is done under an exclusive flock on the DAG definition file; the socket path is
+   removed once, by the listener close); before it the last clause of the property was false (F16a: findings/).
+   What remains an assumption (modelled primitive, not proved): flock(LOCK_EX) is exclusive - `Lock` is enabled only while
+   nobody holds the lock - and is released by closing the descriptor (`Unlock`, refusal, failure; process death is not
+   modelled); a DAG whose definition file cannot be opened is NOT locked by the code (lockSocket degrades to a no-op) -
+   every `start` / `retry` of the command line has loaded that file, the in-process drivers too.
+   Agent/Run.v is the single-agent skeleton.  Tie to the code: tools/props/C16.py (real `blackdagger` processes under
+   strace with delay injection, and in-process agents, replayed against `run`). *)
 From Coq Require Import List Bool Arith.
 Import ListNotations.
 From BD.Agent Require Import Run RunProofs.
@@ -35,7 +29,7 @@ Print Assumptions C16_refused_silent.
 Theorem C16_refusal_changes_nothing : forall (w : world) (p : nat) (w' : world),
   cur w p = Some Probe -> answering w = true -> step (Do p) w = Some w' ->
   sock w' = sock w /\ hist w' = hist w /\ execd w' = execd w /\ (forall q, listening w' q = listening w q) /\
-  (forall q, q <> p -> procs w' q = procs w q) /\ refused (procs w' p) = true /\ pc (procs w' p) = pcEnd.
+  (forall q, q <> p -> procs w' q = procs w q) /\ refused (procs w' p) = true /\ pc (procs w' p) = pcEnd /\ lock w' = None.
 Proof. exact refusal_step. Qed.
 Print Assumptions C16_refusal_changes_nothing.
 
@@ -50,79 +44,61 @@ Theorem C16_agent_refused_start_is_silent : forall e : env,
 Proof. exact refused_start_is_silent. Qed.
 Print Assumptions C16_agent_refused_start_is_silent.
 
-(* From a state in which q serves (bound and listening, not yet shutting down) and nobody else is past its probe: in
-   EVERY continuation in which q has not begun its shutdown, q still serves, the history is unchanged, no other process
-   executed anything, and every process that took its probe was refused. *)
+(* From ANY reachable state in which q owns the socket path (bound, lock released or about to be, shutdown not begun):
+   in EVERY continuation in which q has not begun its shutdown, q still owns the path and its endpoint answers, the
+   history is unchanged, no other process executed anything, and every process that took its probe was refused.
+   (L and I are the invariants of the reachable states: C16_reachable_inv.) *)
 Theorem C16_after_bind : forall (q : nat) (sched : list label) (w w' : world),
-  L w -> K q w -> run sched w = Some w' -> pc (procs w' q) <= pcShutUnlink ->
-  K q w' /\ hist w' = hist w /\ (forall r, r <> q -> (In r (execd w') <-> In r (execd w))) /\
+  L w -> I w -> owner (procs w q) = true -> run sched w = Some w' -> pc (procs w' q) <= pcShutUnlink ->
+  (owner (procs w' q) = true /\ sock w' = Bound q /\ listening w' q = true) /\
+  hist w' = hist w /\ (forall r, r <> q -> (In r (execd w') <-> In r (execd w))) /\
   (forall r, r <> q -> pc (procs w r) <= pcProbe -> pcProbe < pc (procs w' r) -> refused (procs w' r) = true).
 Proof. exact after_bind. Qed.
 Print Assumptions C16_after_bind.
 
-(* the bookkeeping invariant L used above holds in every reachable state *)
-Theorem C16_L_reachable : forall (s0 : sockst) (sched : list label) (w : world),
-  (forall p, s0 <> Bound p) -> run sched (init s0) = Some w -> L w.
-Proof. exact L_reachable. Qed.
-Print Assumptions C16_L_reachable.
+Theorem C16_reachable_inv : forall (s0 : sockst) (sched : list label) (w : world),
+  (forall p, s0 <> Bound p) -> run sched (init s0) = Some w -> L w /\ I w.
+Proof. exact reachable_inv. Qed.
+Print Assumptions C16_reachable_inv.
 
 Example C16_after_bind_premise_reached :
-  K 0 (match run (does 0 8) (init Absent) with Some w => w | None => init Absent end) /\
-  K 0 (match run (does 0 8) (init Stale) with Some w => w | None => init Absent end).
-Proof. exact K_reached. Qed.
+  (exists w, run (does 0 9) (init Absent) = Some w /\ owner (procs w 0) = true) /\
+  (exists w, run (does 0 9) (init Stale) = Some w /\ owner (procs w 0) = true).
+Proof. exact owner_reached. Qed.
 
-(* REFUTED (F16a): probe and bind are not atomic and the binder unlinks first.  Both processes execute their steps at
-   the same time; process 0's endpoint is gone (the path belongs to process 1) while it still runs. *)
-Theorem C16_mutual_exclusion_refuted :
-  exists sched w, run sched (init Absent) = Some w /\
-    both_active w 0 1 = true /\ mem 0 (execd w) = true /\ mem 1 (execd w) = true /\
-    sock w = Bound 1 /\ listening w 0 = true.
-Proof. exact mutual_exclusion_refuted. Qed.
-Print Assumptions C16_mutual_exclusion_refuted.
-
-(* ... process 0's own shutdown then removes process 1's endpoint and a third start is let in too *)
-Theorem C16_third_start_refuted :
-  exists sched w, run sched (init Absent) = Some w /\
-    active (procs w 1) = true /\ active (procs w 2) = true /\ mem 2 (execd w) = true /\ mem 1 (execd w) = true /\ mem 0 (execd w) = true.
-Proof. exact third_start_admitted. Qed.
-Print Assumptions C16_third_start_refuted.
-
-(* ... if the second binds first, the first fails to bind but has already recorded a run: the loser is not silent *)
-Theorem C16_loser_records_refuted :
-  exists sched w, run sched (init Absent) = Some w /\
-    bindfail (procs w 0) = true /\ mem 0 (hist w) = true /\ mem 0 (execd w) = false /\ active (procs w 1) = true.
-Proof. exact loser_records_refuted. Qed.
-Print Assumptions C16_loser_records_refuted.
-
-(* ... and without any probe/bind race: the late unlink of a finishing run deletes its successor's endpoint *)
-Theorem C16_late_unlink_refuted :
-  exists sched w, run sched (init Absent) = Some w /\
-    active (procs w 1) = true /\ active (procs w 2) = true /\ mem 1 (execd w) = true /\ mem 2 (execd w) = true.
-Proof. exact late_unlink_refuted. Qed.
-Print Assumptions C16_late_unlink_refuted.
-
-(* PARTIAL: under the guarded semantics (grun: among the processes 0..n-1 no Probe is taken while another process is in
-   a dangerous phase - probed but not yet bound, or shutting down with unlinks pending) mutual exclusion holds in every
-   reachable state, the active run's endpoint answers, nobody fails to bind, and the refused record nothing. *)
-Theorem C16_mutual_exclusion_partial : forall (n : nat) (s0 : sockst) (sched : list label) (w : world),
-  (forall q, s0 <> Bound q) -> grun n sched (init s0) = Some w ->
-  (forall p q, p <> q -> ~ (busy (procs w p) = true /\ busy (procs w q) = true)) /\
-  (forall p q, p <> q -> ~ (active (procs w p) = true /\ active (procs w q) = true)) /\
-  (forall p, active (procs w p) = true -> sock w = Bound p /\ listening w p = true) /\
+(* MUTUAL EXCLUSION, in full: any number of processes, every interleaving, from a clean or stale socket path.
+   At most one process is inside its probe-and-bind section; at most one is past it un-refused and still owns the
+   socket path; two starts never execute steps at the same time; the owner's endpoint answers; a run that executed
+   earlier had removed its socket before the active one passed its probe; nobody fails to bind and the loser
+   (refused) recorded and executed nothing. *)
+Theorem C16_mutual_exclusion : forall (s0 : sockst) (sched : list label) (w : world),
+  (forall q, s0 <> Bound q) -> run sched (init s0) = Some w ->
+  (forall p q, in_section (procs w p) = true -> in_section (procs w q) = true -> p = q) /\
+  (forall p q, owner (procs w p) = true -> owner (procs w q) = true -> p = q) /\
+  (forall p q, active (procs w p) = true -> active (procs w q) = true -> p = q) /\
+  (forall p, owner (procs w p) = true -> sock w = Bound p /\ listening w p = true) /\
+  (forall p q, p <> q -> In p (execd w) -> active (procs w q) = true -> pcShutUnlink < pc (procs w p)) /\
   (forall p, bindfail (procs w p) = false) /\
   (forall p, refused (procs w p) = true -> ~ In p (hist w) /\ ~ In p (execd w)).
-Proof. exact mutual_exclusion_partial. Qed.
-Print Assumptions C16_mutual_exclusion_partial.
+Proof. exact mutual_exclusion. Qed.
+Print Assumptions C16_mutual_exclusion.
 
-(* the guard is met by non-trivial schedules (second start while the first serves: refused; second start after the first
-   has exited: both run, one after the other) and does exclude the racing schedule *)
-Example C16_guard_sat_refused :
-  exists w, grun 2 (does 0 9 ++ does 1 3 ++ does 0 6) (init Absent) = Some w /\
-            outcomes 2 w = [(1, true, true); (2, false, false)].
-Proof. exact guard_sat_refused. Qed.
-Example C16_guard_sat_sequential :
-  exists w, grun 2 (does 0 15 ++ does 1 15) (init Stale) = Some w /\
-            outcomes 2 w = [(1, true, true); (1, true, true)] /\ execd w = [0; 1].
-Proof. exact guard_sat_sequential. Qed.
-Example C16_guard_rejects_race : grun 2 race_sched (init Absent) = None.
-Proof. exact guard_rejects_race. Qed.
+(* The four schedules that refuted the property before the repair, on the repaired protocol. *)
+(* both probe before either binds: not an execution any more (the second Lock is not enabled) ... *)
+Example C16_race_not_executable : run (does 0 4 ++ does 1 3) (init Absent) = None.
+Proof. exact race_not_executable. Qed.
+(* ... the second start waits, probes after the first's bind and is refused *)
+Example C16_race_repaired :
+  exists w, run (does 0 4 ++ does 1 2 ++ does 0 7 ++ does 1 2 ++ does 0 5) (init Absent) = Some w /\
+            outcomes 2 w = [(1, true, true); (2, false, false)] /\ hist w = [0] /\ execd w = [0].
+Proof. exact race_repaired. Qed.
+Example C16_third_start_repaired :
+  exists w, run (does 0 11 ++ does 1 4 ++ does 2 4) (init Absent) = Some w /\
+            outcomes 3 w = [(0, true, true); (2, false, false); (2, false, false)] /\ answering w = true.
+Proof. exact third_start_repaired. Qed.
+Example C16_bind_first_not_executable : run (does 0 8 ++ does 1 3) (init Absent) = None.
+Proof. exact bind_first_not_executable. Qed.
+Example C16_late_unlink_repaired :
+  exists w, run (does 0 14 ++ does 1 11 ++ does 0 2 ++ does 2 4) (init Absent) = Some w /\
+            outcomes 3 w = [(1, true, true); (0, true, true); (2, false, false)] /\ sock w = Bound 1 /\ answering w = true.
+Proof. exact late_unlink_repaired. Qed.
